@@ -181,6 +181,16 @@ def check_last(spec, hist, ctx, count_from=0):
             stored = lib.observe(run.ev.get_cell_value, c)
             ctx.check(key + '#stored', stored, want, tags + ['oracle:stored'],
                       inputs, nontriv)
+            # "the last value ... computed for the cell": the formula cells
+            # that were computed on the way hold their values, too
+            for p, wp in computed_on_the_way(spec, run.inputs, c):
+                sp = lib.observe(run.ev.get_cell_value, p)
+                if not models.agrees(sp, wp):
+                    ctx.fail(key + '#stored-precedent/' + p,
+                             tags + ['oracle:stored', 'cell:precedent'],
+                             inputs, wp, sp, nontriv)
+                else:
+                    ctx.ok(key + '#stored-precedent/' + p, sp, False)
     else:
         ctx.check(key + '#ret', got, 'blank', ['op:set', 'oracle:set-returns'],
                   inputs, False)
@@ -245,6 +255,35 @@ def foreign_sets(spec, run, key, inputs, ctx):
             ctx.fail(key + '#foreign-eval/' + c,
                      ['oracle:reference', 'foreign:set-on-extracted-model'],
                      inputs, w, got, True)
+
+
+def computed_on_the_way(spec, inputs, cell):
+    """(address, expected observation) of the formula cells the reference
+    evaluation of ``cell`` looks at (lazily: only selected branches)."""
+    seen, order = {}, []
+
+    def get(addr):
+        if addr in seen:
+            return seen[addr]
+        if addr in inputs:
+            v = inputs[addr]
+        elif addr in spec.ref:
+            v = spec.ref[addr](get)
+            order.append(addr)
+        else:
+            v = spec.cells.get(addr)
+        seen[addr] = v
+        return v
+    try:
+        get(cell)
+    except Exception:  # noqa: BLE001   (a raising reference: nothing stored)
+        return []
+    out = []
+    for a in order:
+        if a == cell or seen[a] is models.RAISES:
+            continue
+        out.append((a, models.obs(seen[a], lib)))
+    return out
 
 
 def plan(tier):
